@@ -561,3 +561,47 @@ def check_per_instance_state(run: Run, rule: str, rt):
                 run.check(attr in per_instance, rule, f'{attr}[{cp.label}]/bound-per-instance', 'state-not-per-instance',
                           f'`self.{attr}` of the {cp.label} copy is not bound in __init__: the instance works on an object that '
                           f'belongs to the class', fact='bound in __init__', loc=cp.loc(init) if init is not None else cp.path)
+
+
+def check_mutable_defaults(run: Run, rule: str, src, functions=None):
+    """a mutable default value is created once per process: when the function changes it in place or hands it out, what one call
+    put there is seen by every later call (other workbooks, other translations)"""
+    import ast as _ast
+    n = 0
+    for f in (functions if functions is not None else src.functions.values()):
+        a = f.node.args
+        params = a.posonlyargs + a.args
+        pairs = list(zip(params[len(params) - len(a.defaults):], a.defaults)) + \
+            [(p, d) for p, d in zip(a.kwonlyargs, a.kw_defaults) if d is not None]
+        for p, d in pairs:
+            n += 1
+            mutable = isinstance(d, (_ast.Dict, _ast.List, _ast.Set, _ast.ListComp, _ast.DictComp, _ast.SetComp)) or \
+                (isinstance(d, _ast.Call) and isinstance(d.func, _ast.Name) and d.func.id in ('dict', 'list', 'set', 'defaultdict'))
+            construct = f'{f.qualname}({p.arg}=...)'
+            if not mutable:
+                run.ok(rule, construct, 'immutable default', nontrivial=False, loc=loc_of(f.module.path, f.node))
+                continue
+            how = None
+            rebound = any(isinstance(x, _ast.Name) and x.id == p.arg and isinstance(x.ctx, _ast.Store) for x in _ast.walk(f.node))
+            pm = {c: q for q in _ast.walk(f.node) for c in _ast.iter_child_nodes(q)}
+            for x in _ast.walk(f.node):
+                if not (isinstance(x, _ast.Name) and x.id == p.arg and isinstance(x.ctx, _ast.Load)):
+                    continue
+                q = pm.get(x)
+                child = x
+                while isinstance(q, _ast.Subscript) and q.value is child:
+                    if isinstance(q.ctx, (_ast.Store, _ast.Del)):
+                        how = how or f'stores into it (`{_ast.unparse(q)[:50]}`)'
+                    child, q = q, pm.get(q)
+                q = pm.get(x)
+                if isinstance(q, _ast.Attribute) and q.attr in _MUTATORS and isinstance(pm.get(q), _ast.Call) and pm.get(q).func is q:
+                    how = how or f'calls .{q.attr}() on it'
+                if isinstance(q, _ast.Return) and q.value is x:
+                    how = how or 'returns the object itself'
+                if isinstance(q, _ast.Assign) and q.value is x and any(isinstance(t, _ast.Attribute) for t in q.targets):
+                    how = how or f'keeps the object (`{_ast.unparse(q)[:50]}`)'
+            run.check(how is None or rebound, rule, construct, 'mutable-default-shared',
+                      f'{f.qualname}: the default of `{p.arg}` is a mutable object created once per process and the function {how}: '
+                      f'what one call leaves in it shows up in every later call that omits the argument', fact='default never changed '
+                      'nor handed out', loc=loc_of(f.module.path, f.node))
+    return n
